@@ -128,7 +128,9 @@ const FIELD_NAMES: &[&str] = &["id", "name", "value", "count", "user_id", "data2
 const VARIANT_NAMES: &[&str] = &["Active", "Inactive", "Unknown", "V2", "NotOK", "Pending", "A", "IPv6", "Done"];
 const DOCS: &[&str] = &["The identifier", "a value; with (punctuation): #1", "unicode \u{e9}\u{4e16}", "two  spaces inside", "x", "See https://example.org/a?b=c", "", "last paragraph",
     // Markdown's hard line break (two trailing blanks), a trailing tab, a rustdoc heading
-    "ends with a hard break  ", "tab at the end\t", "# Errors", "## x"];
+    "ends with a hard break  ", "tab at the end\t", "# Errors", "## x",
+    // general punctuation and other non-ASCII text followed by more text on the same line
+    "range 1\u{2013}5 \u{2014} inclusive", "\u{201c}quoted\u{201d} name", "more\u{2026} to come", "\u{2022} first item", "a \u{2192} b", "\u{2030} of total (per mille)"];
 
 fn docs(rng: &mut Rng, indent: &str) -> (String, Vec<String>) {
     let mut src = String::new();
@@ -266,7 +268,9 @@ fn gen_module(idx: usize, rng: &mut Rng) -> Module {
         inline_refs.push(format!("(\"Use{name}\", <{name} as zlink_core::introspect::Type>::TYPE)"));
         // usable as an inline field type elsewhere only without field docs (comments inside inline
         // types are outside what the property lists)
-        if !lt && fields.iter().all(|f| f.comments.is_empty()) {
+        // (field docs of an inline struct end up inside an inline type, where the parser reads
+        // comments as white space: the round trip is compared without them, but it has to parse)
+        if !lt {
             inline.push((name, fields));
         }
     }
